@@ -505,6 +505,22 @@ def thin_io_cells(tier, which=("1", "2", "3", "4", "5", "6", "7", "8")):
                                   replace=["read_io_header", "read_io_footer"], closes_loops="loop-free", backends=(("cadical", 1500),), split=6))
             cells.append(Cell("io.field.dump", un, "h_field_dump", defines=d, enforce="field_dump",
                               replace=["write_io_header", "write_io_footer"], closes_loops="loop-free", backends=(("cadical", 1500),), split=6))
+    for L, nm in (("4", "clamp"), ("5", "backup")):
+        if tier == "quick":
+            break      # 8-10 min each on a loaded machine: thorough tier only
+        combos = [(2, "float", 3, "float"), (3, "double", 1, "double")]
+        for n, ist, m, ost in combos:
+            d = {"DIMS_IN": n, "LAYER": L, "IN_SCALAR_T": ist, "DIMS_OUT": m, "OUT_SCALAR_T": ost}
+            un = "layer_io@L=" + L
+            tag = "N%d.%s" % (n, ist)
+            cells.append(Cell("io.%s.invec.%s" % (nm, tag), un, "h_read_binary_invec", defines=d, enforce="read_binary_invec", closes_loops="loop-free",
+                              backends=(("cadical", 900), ("sat", 600))))
+            for fl in (("ndebug",) if tier == "quick" else ("debug", "ndebug")):
+                cells.append(Cell("io.%s.read.%s.%s" % (nm, tag, fl), un, "h_layer_read_binary", defines=d, flavour=fl, enforce="layer_read_binary",
+                                  replace=["read_io_header", "read_io_footer", "read_binary_invec", "read_binary_outvec"], closes_loops="loop-free",
+                                  backends=(("cadical", 3000),), split=6))
+            cells.append(Cell("io.%s.write.%s" % (nm, tag), un, "h_layer_write_binary", defines=d, enforce="layer_write_binary",
+                              replace=["write_io_header", "write_io_footer"], closes_loops="loop-free", backends=(("cadical", 3000),), split=6))
     return cells
 
 
@@ -525,14 +541,14 @@ def cells_C07(tier, consts):
 
 
 PROPS["C06"] = {
-    "level_text": "writers and readers proved against the golden byte grammar of the pinned revision, modularly: header/footer primitives; the array backend's payload (element loops closed by loop contracts, symbolic count); the framing of strided / morton / hilbert (tag, extents, inner image, footer), identity, the pass-through layers and field::dump / field(istream&) -- each against an ABSTRACT inner-backend serialiser; per-layer round-trip lemma over the two contracts: what write_binary emits, read_binary accepts, consuming exactly the image and returning the same configuration and inner value; writers are functions of configuration and payload only (re-dump gives the same bytes)",
-    "level_note": "the stack-level statement is the structural induction over layers (meta-level, unchecked; the inner backend's own round trip is the induction hypothesis); clamp / backup / affine serialisers are NOT under contract; constant, covariant_cast and dereference serialisers did not compile when instantiated (D7/D8): repaired by fix: commits and now under contract; std::iostream modelled by the ghost stream; stream limited to 2^40 bytes, array to 2^32 elements",
+    "level_text": "writers and readers proved against the golden byte grammar of the pinned revision, modularly: header/footer primitives; the array backend's payload (element loops closed by loop contracts, symbolic count); the framing of strided / morton / hilbert (tag, extents, inner image, footer), clamp and backup (tag, raw configuration vectors, inner image, footer), constant, identity, the pass-through layers and field::dump / field(istream&) -- each against an ABSTRACT inner-backend serialiser; per-layer round-trip lemma over the two contracts: what write_binary emits, read_binary accepts, consuming exactly the image and returning the same configuration and inner value; writers are functions of configuration and payload only (re-dump gives the same bytes)",
+    "level_note": "the stack-level statement is the structural induction over layers (meta-level, unchecked; the inner backend's own round trip is the induction hypothesis); the affine layer's serialiser is NOT under contract; constant, covariant_cast and dereference serialisers did not compile when instantiated (D7/D8): repaired by fix: commits and now under contract; std::iostream modelled by the ghost stream; stream limited to 2^40 bytes, array to 2^32 elements",
     "design_ref": "DESIGN.md section 5 (C06/C07/C08)",
     "cells": cells_C06, "consts": True,
     "explanation": "serialisers against the golden grammar, modular in the inner backend",
     "trusted_base": ["ghost stream model (stubs/stream.h)", "abstract inner-backend serialiser (stubs/backend_io.h)"],
     "assumptions": ["stack = structural induction over layers (meta-lemma)", "output never fails (no I/O errors modelled)"],
-    "not_covered": ["clamp, backup, affine serialisers", "cuda_device_array"],
+    "not_covered": ["affine layer serialiser", "cuda_device_array"],
 }
 
 
